@@ -3,6 +3,7 @@ package main
 import (
 	"bytes"
 	"fmt"
+	predis "github.com/samaritan-proxy/samaritan/pb/config/protocol/redis"
 	"math/rand"
 	"strings"
 	"sync"
@@ -675,7 +676,8 @@ func c04FailoverNoticed(r *ev.Run) {
 			return
 		}
 		cl.OnEvent = nil
-		svc, err := startRedisSvc(s, cl, cl.Addrs(), RedisOpts{ConnTimeout: 300 * time.Millisecond})
+		strat := []predis.ReadStrategy{predis.ReadStrategy_MASTER, predis.ReadStrategy_REPLICA, predis.ReadStrategy_BOTH}[rep%3]
+		svc, err := startRedisSvc(s, cl, cl.Addrs(), RedisOpts{ConnTimeout: 300 * time.Millisecond, ReadStrategy: strat})
 		if err != nil || !svc.WaitRouting(1, 10*time.Second) {
 			r.Internal("service did not start: %v", err)
 			cl.Close()
@@ -735,8 +737,23 @@ func c04FailoverNoticed(r *ev.Run) {
 			r.Violation("C04:error-while-reachable:failover-noticed-late", fmt.Sprintf("%d requests failed after the replica had been promoted before one succeeded", failed), w)
 		default:
 			r.Count("failovers_noticed_without_periodic_refresh", 1)
+			// the promoted node has no replica of its own: reads of its slots must work under every read strategy
+			for i := 0; i < 20; i++ {
+				v, err := conn.DoS(3*time.Second, "GET", key)
+				if err != nil || v.Kind != resp.Bulk || !strings.HasPrefix(string(v.Str), "after-") {
+					time.Sleep(100 * time.Millisecond)
+					if sutDied(r, s, map[string]interface{}{"read_strategy": strat.String(), "after": "failover; the new master has no replica", "request": "GET " + key}) {
+						cl.Close()
+						return
+					}
+					w["read_strategy"], w["reply"], w["error"] = strat.String(), v.String(), fmt.Sprint(err)
+					r.Violation("C04:reply-differs:read-after-failover", "after the failover a read of a key of the promoted node (which has no replica) did not return the value just written", w)
+					break
+				}
+				r.Count("reads_from_replica_less_master", 1)
+			}
 		}
-		r.Case(fmt.Sprintf("failover-noticed/idle=%v", idle))
+		r.Case(fmt.Sprintf("failover-noticed/idle=%v/%s", idle, strat))
 		conn.Close()
 		s.StopProc(svc.Name, 20*time.Second)
 		cl.Close()
